@@ -58,3 +58,45 @@ Qed.
 Example forgotten_burst :
   forgotten s0 (Do sel :: Do (RemoveData 0) :: repeat (Do (AddData 1)) (Z.to_nat stack_keep + 1)) [] = [sel; RemoveData 0; AddData 1].
 Proof. vm_compute. reflexivity. Qed.
+
+(* ---------- the machine made of the commands translated from command.py / edit_subset_mode.py (gen/Gen_commands.v) ---------- *)
+From GV Require Import gen.Gen_groups gen.Gen_combine gen.Gen_commands C06.GenEquiv.
+
+(* the heap of the translated DataCollection with dataset 0 in it: the hypothesis `Sim` of the theorems is met *)
+Definition gh0 : heap := bstep (ginit 2 7) (BAppend 0).
+Example gh0_sim : Sim gh0.
+Proof. apply bstep_sim. apply ginit_sim. Qed.
+
+Definition gsel : gsop := GDo KApply (mk_apply (SLeaf 5) None).
+Definition gand : gsop := GDo KRoi (mk_apply (SLeaf 12) (Some M_AndMode)).
+Definition gs0 : gsess := gstart gh0 (fun _ => SEmpty) [] M_ReplaceMode.
+Definition gshow (r : gsess + Z) :=
+  match r with
+  | inl gs => Some (h_data (s_heap (g_ss gs)), h_groups (s_heap (g_ss gs)), map (s_gstate (g_ss gs)) (h_groups (s_heap (g_ss gs))),
+                    h_dsubs (s_heap (g_ss gs)) 0, el_items (s_edit (g_ss gs)), length (g_cmds gs), length (g_undone gs))
+  | inr _ => None
+  end.
+
+Example gen_ops_valid : Forall (valid_op (h_next_did gh0)) [gsel; gand; GDo KAdd (mk_add 1); GUndo; GUndo; GUndo; GRedo; GRedo].
+Proof. repeat constructor; vm_compute; intuition discriminate. Qed.
+
+(* the translated selection creates group 0 with one subset on dataset 0; the translated undo removes the group and empties
+   the edit choice; redo creates group 1 with the same selection; and-ing into it and undoing twice, redoing once, ends there again *)
+Example gen_machine_runs :
+  gshow (gsrun gs0 [gsel]) = Some ([0], [0], [SLeaf 5], [(0, 0)], [0], 1%nat, 0%nat) /\
+  gshow (gsrun gs0 [gsel; GUndo]) = Some ([0], [], [], [], [], 0%nat, 1%nat) /\
+  gshow (gsrun gs0 [gsel; GUndo; GRedo]) = Some ([0], [1], [SLeaf 5], [(1, 1)], [1], 1%nat, 0%nat) /\
+  gshow (gsrun gs0 [gsel; gand]) = Some ([0], [0], [SAnd (SLeaf 12) (SLeaf 5)], [(0, 0)], [0], 2%nat, 0%nat) /\
+  gshow (gsrun gs0 [gsel; gand; GDo KAdd (mk_add 1); GUndo; GUndo; GUndo; GRedo; GRedo]) =
+    Some ([0], [1], [SAnd (SLeaf 12) (SLeaf 5)], [(2, 1)], [1], 2%nat, 1%nat).
+Proof. vm_compute. repeat split. Qed.
+
+(* AddData of something that is not a dataset raises TypeError in the translated code (and only then: gen_refines_model) *)
+Example gen_machine_raises : gsrun gs0 [gsel; GDo KAdd (mk_add 7)] = inr E_TypeError.
+Proof. vm_compute. reflexivity. Qed.
+
+(* the hand-model run the theorem relates it to shows the same *)
+Example gen_hand_agree :
+  let s := srun (start (run (init 2 7) [Append 0]) [] MReplace) (map sop_of [gsel; gand; GUndo]) in
+  (coll (base s), groups (base s), map (gstate (base s)) (groups (base s)), edit s) = ([0], [0], [SLeaf 5], [0]).
+Proof. vm_compute. reflexivity. Qed.
